@@ -5,4 +5,6 @@ cd "$(dirname "$0")"
 export CARGO_NET_OFFLINE=true
 mkdir -p target evidence replays
 ( cd harness && cargo build --release --bin check )
+# the CLI binary C25 runs as a subprocess
+cargo build --release --offline --manifest-path /repo/Cargo.toml -p searchlite-cli --target-dir "$(pwd)/target/repo-bins"
 echo "setup ok"
